@@ -158,15 +158,17 @@ func (c RawConfiguration) handleCorrectableCall(ctx context.Context, corr *Corre
 				break
 			}
 			replies[r.nid] = r.msg
-			if resp, rlevel, quorum = state.data.QuorumFunction(state.data.Message, replies); quorum {
-				if quorum {
-					corr.set(r.msg, rlevel, nil, true)
-					return
+			resp, rlevel, quorum = state.data.QuorumFunction(state.data.Message, replies)
+			if quorum {
+				if rlevel < clevel {
+					rlevel = clevel // published levels never decrease
 				}
-				if rlevel > clevel {
-					clevel = rlevel
-					corr.set(r.msg, rlevel, nil, false)
-				}
+				corr.set(resp, rlevel, nil, true)
+				return
+			}
+			if rlevel > clevel {
+				clevel = rlevel
+				corr.set(resp, rlevel, nil, false)
 			}
 		case <-ctx.Done():
 			corr.set(resp, clevel, QuorumCallError{cause: ctx.Err(), errors: errs, replies: len(replies)}, true)
